@@ -53,6 +53,16 @@ TRAIT_SETS = [['Clone'], ['Copy', 'Clone'], ['Debug'], ['Default'], ['PartialEq'
 STRUCT_SETS = [['Add'], ['SubAssign'], ['Not'], ['Deref'], ['Deref', 'DerefMut'], ['BitXor', 'ShlAssign']]
 
 
+# user-written `by` expressions that name nothing from the prelude (they must survive the shadowed scope and no_std)
+BY_EXPR = {
+    'ord': '| _ , _ | :: core :: cmp :: Ordering :: Equal',
+    'partial_ord': '| _ , _ | :: core :: option :: Option :: Some ( :: core :: cmp :: Ordering :: Equal )',
+    'eq': '| _ , _ | true', 'partial_eq': '| _ , _ | true', 'hash': '| _ , _ | ( )',
+}
+AFFECTS = {'ord': {'Ord', 'PartialOrd', 'Eq', 'PartialEq', 'Hash'}, 'partial_ord': {'PartialOrd', 'PartialEq'},
+           'eq': {'Eq', 'PartialEq', 'Hash'}, 'partial_eq': {'PartialEq'}, 'hash': {'Hash'}}
+
+
 def build(names, shape, traits, mode, with_attrs, const_name=None):
     """shape: ('struct'|'enum', kind list) -> request"""
     is_enum, vs = shape
@@ -74,11 +84,25 @@ def build(names, shape, traits, mode, with_attrs, const_name=None):
         fs = []
         for i in range(n):
             attrs = []
-            if with_attrs and i == 0 and any(t in traits for t in ('Ord', 'PartialOrd', 'Eq', 'PartialEq', 'Hash')) and not ops:
+            cmp_tr = [t for t in traits if t in ('Ord', 'PartialOrd', 'Eq', 'PartialEq', 'Hash')]
+            if with_attrs == 1 and i == 0 and cmp_tr and not ops:
                 attrs.append(sx.a_cmp('ord', sx.m_list(sx.cargs(key='( $ % 2 )'))))
+            if with_attrs == 2 and i == 0 and cmp_tr and not ops:
+                # one #[ord(by = ..)]: every derived comparison trait goes through a by-helper built from it
+                attrs.append(sx.a_cmp('ord', sx.m_list(sx.cargs(by=BY_EXPR['ord']))))
+                if 'Hash' in traits:
+                    attrs.append(sx.a_cmp('hash', sx.m_list(sx.cargs(by=BY_EXPR['hash']))))
+            if with_attrs in (3, 4) and i == 0 and cmp_tr and not ops:
+                # every helper attribute that affects a derived trait, with its own by (3) / key (4)
+                for a in ('ord', 'partial_ord', 'eq', 'partial_eq', 'hash'):
+                    if AFFECTS[a] & set(traits):
+                        attrs.append(sx.a_cmp(a, sx.m_list(sx.cargs(by=BY_EXPR[a]) if with_attrs == 3
+                                                           else sx.cargs(key='( $ , %d )' % len(a)))))
             if 'Default' in traits and i % len(ftypes) == 0 and not ops and not deref:
                 attrs.append(sx.a_default(sx.m_list(sx.dargs('& 7'))))
-            if with_attrs and i == 1 and 'Debug' in traits:
+            if with_attrs == 3 and i == 1 and 'Debug' in traits:
+                attrs.append(sx.a_debug(sx.m_list(sx.gargs(transparent=True))))
+            elif with_attrs and i == 1 and 'Debug' in traits:
                 attrs.append(sx.a_debug(sx.m_list(sx.gargs(ignore=True))))
             fs.append(sx.field(ftypes[i % len(ftypes)], name=names['fields'][i] if kind == 'named' else None, attrs=attrs))
         return sx.named(fs) if kind == 'named' else (sx.unnamed(fs) if kind == 'tuple' else sx.UNIT)
@@ -103,7 +127,7 @@ class C13(Prop):
     pid = 'C13'
     tag = 'all generated impls (hostile names)'
     rule = ('every trait set (11 for struct+enum, 6 struct-only incl. operators and Deref) x struct named/tuple and enum shapes x '
-            'with / without helper attributes x both entry points, each as a neutral-name base program and as renamings drawn '
+            'helper-attribute levels {none, ord(key), ord(by), every relevant attribute with by, every relevant attribute with key; debug ignore / transparent} x both entry points, each as a neutral-name base program and as renamings drawn '
             'from a hostile dictionary (every identifier the expansion introduces, prelude / core type, trait and variant names, '
             'raw keywords) for the type, its lifetime / type / const parameters, fields and variants; every renamed program must '
             'compile in a plain scope, in a scope with a glob import shadowing the prelude names, and under #![no_std] '
@@ -123,8 +147,10 @@ class C13(Prop):
                     continue
                 if 'Deref' in traits:
                     shape = (False, [(shape[1][0][0], 1)])
-                for with_attrs in (False, True):
+                for with_attrs in (0, 1, 2, 3, 4):
                     if with_attrs and traits in STRUCT_SETS:
+                        continue
+                    if with_attrs >= 2 and not any(t in traits for t in ('Ord', 'PartialOrd', 'Eq', 'PartialEq', 'Hash')):
                         continue
                     gid += 1
                     mode = 'attr' if gid % 2 else 'derive'
@@ -146,7 +172,7 @@ class C13(Prop):
         for gid, ri, names, shape, traits, mode, with_attrs, cn in self.plans(tier, rng):
             req = build(names, shape, traits, mode, with_attrs, cn)
             out.append((req, dict(features=('traits:' + '+'.join(traits), 'enum' if shape[0] else shape[1][0][0], mode,
-                                            'attrs' if with_attrs else 'plain', 'base' if ri == 0 else 'renamed',
+                                            'attrs%d' % with_attrs, 'base' if ri == 0 else 'renamed',
                                             'const-binder' if cn else 'ordinary'),
                                   gid=gid, ri=ri, names=names, shape=shape, traits=traits, const_name=cn,
                                   nontrivial=ri != 0)))
